@@ -53,6 +53,10 @@ pub struct Endpoint {
     pub rcv_timeout_set: bool,
     pub fire_timeout: bool,
     pub fail_next_send: Option<i32>,
+    /// deterministic faults for enumeration: the connection is lost once exactly this many bytes were
+    /// accepted from / handed to this endpoint's owner
+    pub cut_after_sent: Option<usize>,
+    pub cut_after_received: Option<usize>,
     /// every byte this endpoint's owner put on the wire, in order
     pub sent: Vec<u8>,
     /// how many of `sent` bytes were already delivered to the peer
@@ -245,6 +249,26 @@ fn do_recv(fd: i32, buf: *mut u8, len: usize, peek: bool) -> isize {
                     n = cut;
                 }
             }
+            if let Some(k) = net.eps[i].cut_after_received {
+                let left = k.saturating_sub(net.eps[i].received);
+                if left == 0 {
+                    let p = net.eps[i].peer;
+                    for x in [i, p] {
+                        net.eps[x].reset = true;
+                        net.eps[x].inflight.clear();
+                    }
+                    poke(net, p);
+                    if let Some(env) = &net.env {
+                        env.with(|e| {
+                            e.obs.fault("cut-at-received-offset");
+                            e.obs.ev("cut-rx", k as u64, i as u64)
+                        });
+                    }
+                    set_errno(libc::ECONNRESET);
+                    return -1;
+                }
+                n = n.min(left);
+            }
             let ep = &mut net.eps[i];
             for k in 0..n {
                 let b = if peek { ep.rx[k] } else { ep.rx.pop_front().unwrap() };
@@ -352,6 +376,25 @@ fn do_send(fd: i32, buf: *const u8, len: usize) -> isize {
                     k
                 });
             }
+        }
+        if let Some(k) = net.eps[i].cut_after_sent {
+            let left = k.saturating_sub(net.eps[i].sent.len());
+            if left == 0 {
+                for x in [i, peer] {
+                    net.eps[x].reset = true;
+                    net.eps[x].inflight.clear();
+                }
+                poke(net, peer);
+                if let Some(env) = &net.env {
+                    env.with(|e| {
+                        e.obs.fault("cut-at-sent-offset");
+                        e.obs.ev("cut-tx", k as u64, i as u64)
+                    });
+                }
+                set_errno(libc::EPIPE);
+                return -1;
+            }
+            n = n.min(left);
         }
         if n < len && net.eps[i].nonblocking {
             net.eps[i].want_write_wake = true;
@@ -673,6 +716,8 @@ pub fn connection(port: Option<u16>) -> Conn {
             rcv_timeout_set: false,
             fire_timeout: false,
             fail_next_send: None,
+            cut_after_sent: None,
+            cut_after_received: None,
             sent: Vec::new(),
             delivered: 0,
             send_marks: Vec::new(),
